@@ -18,7 +18,7 @@ import (
 var c14Toggles = []string{
 	// OpenGraph
 	"og-no-title", "og-no-type", "og-no-url", "og-no-image", "og-type-profile", "og-type-website",
-	"og-description", "og-site_name", "og-section", "og-published", "og-author", "og-first", "og-last", "og-image2",
+	"og-description", "og-site_name", "og-section", "og-published", "og-author", "og-first", "og-last", "og-image2", "og-modified-early",
 	// schema.org
 	"sc-no-item", "sc-no-headline", "sc-name", "sc-url", "sc-description", "sc-image", "sc-publisher", "sc-publisher-org",
 	"sc-author", "sc-author-person", "sc-rel-author", "sc-date", "sc-section", "sc-year", "sc-holder", "sc-imageobject", "sc-second-item",
@@ -51,6 +51,10 @@ func c14Doc(cf *c14Cfg) string {
 			typ = "profile"
 		} else if on("og-type-website") {
 			typ = "website"
+		}
+		if on("og-modified-early") {
+			// an article property that precedes og:type (it is dropped: the type is not known yet)
+			sb.WriteString(meta("property", "article:modified_time", "OGmodifiedEarly"))
 		}
 		if !on("og-no-type") {
 			sb.WriteString(meta("property", "og:type", typ))
@@ -323,6 +327,81 @@ func c14Check(c *eng.Case) *eng.Outcome {
 			o.V(fmt.Sprintf("precedence:%s:want-%s", f, from), "MarkupInfo.%s=%q, expected %q (from %s; alone: og=%q sc=%q ie=%q); %s", f, got, want, from, str(only["og"], f), str(only["sc"], f), str(only["ie"], f), c.Get("doc"))
 		}
 	}
+	// direct reference for the scalar fields: every value names its source and field, and each
+	// toggle says which source offers which field. A field is judged only when no source offers it
+	// through two different toggles (which of the two wins inside one source is extraction, not precedence).
+	{
+		on := func(t string) bool { return cf.on[t] }
+		type prov struct{ src, val string }
+		offers := map[string][]prov{}
+		add := func(f, src, val string, cond bool) {
+			if cond {
+				offers[f] = append(offers[f], prov{src, val})
+			}
+		}
+		ogArticle := ogQualified && !on("og-type-profile") && !on("og-type-website")
+		ogProfile := ogQualified && on("og-type-profile")
+		add("Title", "og", "OGtitle", ogQualified)
+		add("Type", "og", "Article", ogArticle)
+		add("URL", "og", "http://og.example/OGurl", ogQualified)
+		add("Description", "og", "OGdescription", ogQualified && on("og-description"))
+		add("Publisher", "og", "OGsite", ogQualified && on("og-site_name"))
+		add("Author", "og", "OGfirst OGlast", ogProfile && on("og-first") && on("og-last"))
+		add("Author", "og", "OGfirst", ogProfile && on("og-first") && !on("og-last"))
+		item := !on("sc-no-item")
+		add("Title", "sc", "SCheadline", item && !on("sc-no-headline"))
+		add("Title", "sc", "SCname", item && on("sc-no-headline") && on("sc-name"))
+		add("Type", "sc", "Article", item)
+		add("URL", "sc", "http://sc.example/SCurl", item && on("sc-url"))
+		add("Description", "sc", "SCdescription", item && on("sc-description"))
+		add("Publisher", "sc", "SCpublisher", item && on("sc-publisher"))
+		add("Publisher", "sc", "SCorgname", item && on("sc-publisher-org"))
+		add("Publisher", "sc", "SCholder", item && on("sc-holder") && !on("sc-publisher") && !on("sc-publisher-org"))
+		add("Author", "sc", "SCauthor", item && on("sc-author"))
+		add("Author", "sc", "SCpersonname", item && on("sc-author-person"))
+		add("Author", "sc", "SCrelauthor", on("sc-rel-author") && !(item && (on("sc-author") || on("sc-author-person"))))
+		add("Title", "ie", "IEtitle", !on("ie-no-title"))
+		add("Publisher", "ie", "IEpublisher", on("ie-publisher"))
+		add("Copyright", "ie", "IEcopyright", on("ie-copyright"))
+		add("Author", "ie", "IEbyline", on("ie-byline"))
+		for _, f := range []string{"Title", "Type", "URL", "Description", "Publisher", "Author"} {
+			perSrc := map[string][]string{}
+			for _, pv := range offers[f] {
+				perSrc[pv.src] = append(perSrc[pv.src], pv.val)
+			}
+			ambiguous := false
+			for _, v := range perSrc {
+				if len(v) > 1 {
+					ambiguous = true
+				}
+			}
+			if ambiguous || (f == "Copyright") {
+				continue
+			}
+			want, from := "", "none"
+			for _, src := range order {
+				if v := perSrc[src]; len(v) == 1 {
+					want, from = v[0], src
+					break
+				}
+			}
+			if got := str(full, f); got != want {
+				o.V(fmt.Sprintf("field:%s:want-%s", f, from), "MarkupInfo.%s=%q, but the page offers %q through %s (highest-precedence source offering it); %s", f, got, want, from, c.Get("doc"))
+			}
+		}
+		if on("ie-copyright") && !(item && (on("sc-year") || on("sc-holder"))) {
+			if full.Copyright != "IEcopyright" {
+				o.V("field:Copyright:want-ie", "MarkupInfo.Copyright=%q, but only IE offers a copyright (IEcopyright); %s", full.Copyright, c.Get("doc"))
+			}
+		}
+		// the OpenGraph article record: properties after og:type are part of it
+		if ogArticle && (on("og-section") || on("og-published") || on("og-author")) {
+			a := full.Article
+			if on("og-section") && a.Section != "OGsection" || on("og-published") && a.PublishedTime != "OGpublished" || on("og-author") && (len(a.Authors) != 1 || a.Authors[0] != "OGauthor") {
+				o.V("article:og-record-incomplete", "OpenGraph (type article) offers section/published/author after og:type but MarkupInfo.Article=%+v; %s", a, c.Get("doc"))
+			}
+		}
+	}
 	// images: wholesale from the first source with a non-empty list
 	{
 		var want []data.MarkupImage
@@ -393,8 +472,8 @@ func init() {
 	eng.Register(&eng.Prop{
 		ID:        "C14",
 		DesignRef: "§5 C14",
-		Rule: "base page with all three sources (qualified OpenGraph article, schema.org Article item with headline, IE tags with title); every set of <= 3 (quick) / <= 4 (thorough) of 38 feature toggles (drop a required OG property, OG type profile/website, OG optional/article/profile properties, second image; schema.org item absent, name/url/description/image/publisher string|Organization/author string|Person/rel=author/date/section/copyright year+holder/ImageObject/second item; IE title absent, copyright, byline, dateline, displaydate, publisher attribute, captioned figure), " +
-			"with all 6 block orders x opt-out {absent,true,false} for sets of <= 2 (quick) / <= 3 (thorough) toggles and 2 orders otherwise; every value is a token naming source and field. Oracle: opt-out => zero MarkupInfo; otherwise each scalar field = first non-empty of the values the sources yield alone (4 executions per case: full, OG only, schema.org only, IE only), Images wholesale from the first non-empty source, Article wholesale from the first source that has a record, and an unqualified OpenGraph block yields nothing. " +
+		Rule: "base page with all three sources (qualified OpenGraph article, schema.org Article item with headline, IE tags with title); every set of <= 3 (quick) / <= 4 (thorough) of 39 feature toggles (drop a required OG property, OG type profile/website, OG optional/article/profile properties, second image, an article property placed before og:type; schema.org item absent, name/url/description/image/publisher string|Organization/author string|Person/rel=author/date/section/copyright year+holder/ImageObject/second item; IE title absent, copyright, byline, dateline, displaydate, publisher attribute, captioned figure), " +
+			"with all 6 block orders x opt-out {absent,true,false} for sets of <= 2 (quick) / <= 3 (thorough) toggles and 2 orders otherwise; every value is a token naming source and field. Oracle: opt-out => zero MarkupInfo; otherwise each scalar field = first non-empty of the values the sources yield alone (4 executions per case: full, OG only, schema.org only, IE only), Images wholesale from the first non-empty source, Article wholesale from the first source that has a record, an unqualified OpenGraph block yields nothing, and - directly from the tokens - each scalar field holds the token of the highest-precedence source whose markup offers it (judged when no source offers the field in two ways). " +
 			"Non-trivial = two sources supply different values for a field (or two have an article record), or OpenGraph is disqualified.",
 		Enumerate: c14Enumerate,
 		Check:     c14Check,
